@@ -202,7 +202,11 @@ def advance (states : List S) (curNeed : Nat) (ws : List String) : List S :=
 /-- spec events of a line (observations of the implementation only) -/
 def evsOf (curLen : Nat) (ws : List String) : List ReadSpec.Ev :=
   match ws with
-  | ["P", "reader", _, "0", comms] => if readyOf comms "rtimer" == some true && (readyOf comms "rd").isSome then [.tickTaken curLen] else []
+  | ["P", "reader", _, "0", comms] =>
+      if readyOf comms "rtimer" == some true && (readyOf comms "rd").isSome then [.tickTaken curLen]
+      else if readyOf comms "rd" == some true then [.slotTaken] else []
+  | ["P", "poller", _, "1", comm] => if readyOf comm "rd" == some true then [.dataTrigger curLen] else []
+  | ["P", actor, _, "1", comm] => if actor != "reader" && readyOf comm "rd" == some true then [.errTrigger] else []
   | ["G", "reader", "call", i, op, n, mode, len] =>
       [.call (toNat i) op (needOf op (toNat (getKV [n] "n"))) (getKV [mode] "mode") (toNat (getKV [len] "len"))]
   | "G" :: "reader" :: "ret" :: i :: rest =>
@@ -213,10 +217,10 @@ def evsOf (curLen : Nat) (ws : List String) : List ReadSpec.Ev :=
       else if opOf fn == "add" && toInt a < 0 then [.consumed (-(toInt a)).toNat] else []
   | ["S", "reader", _, "waitReadSize", fn, a, _, _] => if opOf fn == "store" && a == "0" then [.decided] else []
   | ["G", "rtimer", "fire", "true"] => [.fired]
-  | ["S", "hup", _, "closing", fn, _, b, r] => if opOf fn == "cas" && b == "2" && r == "1" then [.peerClose] else []
+  | ["S", "hup", _, "closing", fn, _, b, r] => if opOf fn == "cas" && b == "2" && r == "1" then [.peerClose curLen] else []
   | ["S", actor, _, "closing", fn, a, b, r] =>
       if actor.startsWith "closer" then
-        (if opOf fn == "cas" && b == "1" && r == "1" then [.userClose] else if opOf fn == "store" && a == "1" then [.userClose] else [])
+        (if opOf fn == "cas" && b == "1" && r == "1" then [.userClose curLen] else if opOf fn == "store" && a == "1" then [.userClose curLen] else [])
       else []
   | "G" :: who :: "panic-out" :: _ => [.panic who]
   | _ => []
